@@ -327,6 +327,34 @@ def gen_join_vs_stop(rng):
     return {"family": "mixed", "cfg": cfg, "threads": [ctl, helper]}
 
 
+def gen_zero_timeout(rng):
+    """A pool built with timeout=0 (never wait on the queue) and min_threads=0, so that an idle worker retires at once
+    instead of polling; a bounded queue that is full while the only worker is busy when stop() is called."""
+    cfg = {"max": 1, "min": 0, "qsize": 1, "timeout": 0}
+    ctl = [["enq", "gate", 0], ["start"], ["enq", "ret", 0]]
+    if rng.random() < 0.5:
+        ctl.append(["enq", "ret", 0])  # refused: the queue is full
+    ctl.append(["stop"])
+    if rng.random() < 0.5:
+        ctl += [["start"], ["enq", "ret", 0], ["res", len([o for o in ctl if o[0] == "enq"]), 2.0]]
+    return {"family": "mixed", "cfg": cfg, "threads": [ctl]}
+
+
+def gen_parent(rng):
+    """A task that submits a sub-task to the pool it runs on and waits for it: with max_threads >= 2 a second worker
+    must be started for the child (submission from a pool thread is submission "from several threads")."""
+    mx = rng.choice([2, 2, 3])
+    cfg = {"max": mx, "min": rng.randrange(0, 2), "qsize": 0, "timeout": rng.choice([0.5, 2.0])}
+    to = cfg["timeout"]
+    ctl = [["start"]]
+    if rng.random() < 0.4:
+        ctl.append(["enq", "ret", 0])
+    if rng.random() < 0.3:
+        ctl.append(["sleep", rng.choice([to, 2 * to])])
+    ctl += [["enq", "parent", 4 * to + 8.0], ["res", len([o for o in ctl if o[0] == "enq"]), 4 * to + 16.0]]
+    return {"family": "mixed", "cfg": cfg, "threads": [ctl]}
+
+
 def gen_abort(rng):
     """
     A task that ends with a BaseException (sys.exit() in a task), alone in the pool: the worker thread that ran it ends
@@ -353,6 +381,10 @@ def gen_program(rng, focus=None, tier="quick"):
         return gen_join_vs_stop(rng)
     if k > {"C11": 0.96}.get(focus, 0.985):
         return gen_abort(rng)
+    if k > {"C10": 0.965}.get(focus, 0.98):
+        return gen_parent(rng)
+    if k > {"C10": 0.96, "C11": 0.955}.get(focus, 0.978):
+        return gen_zero_timeout(rng)
     if k < pg:
         return gen_growth(rng, tier)
     if k < pg + 0.2:
@@ -746,6 +778,12 @@ def analyse(program, log, verdict, thread_errors=()):
                 if bad:
                     v.append(Violation("C10", "progress", "dependent-tasks-stuck",
                                        "%d mutually dependent tasks (max_threads=%d) did not all start: %s still waiting" % (k, mx, bad)))
+
+    for ev in log:
+        if ev[2] == "child" and not ev[4] and mx >= 2 and not any(sc < len(log) for sc, _ in h.stops if sc < h.open_all_idx):
+            v.append(Violation("C10", "progress", "child-task-not-started",
+                               "a task enqueued by a running task (max_threads=%d) was not started while its parent waited for it" % mx))
+            break
 
     # ---- C11 ---------------------------------------------------------------------
     for op in h.ops.values():
